@@ -45,13 +45,13 @@ type SQLDirective struct {
 }
 
 type SQLQuery struct {
-	Raw       string   `json:"raw"`
-	Func      string   `json:"func"`
-	Expected  string   `json:"expected"` // expected SQL text in the Go function
-	ArgNames  []string `json:"arg_names"`
-	ArgTypes  []string `json:"arg_types"`
-	Fields    []string `json:"fields"` // compared fields, per argument
-	Execable  bool     `json:"execable"`
+	Raw      string   `json:"raw"`
+	Func     string   `json:"func"`
+	Expected string   `json:"expected"` // expected SQL text in the Go function
+	ArgNames []string `json:"arg_names"`
+	ArgTypes []string `json:"arg_types"`
+	Fields   []string `json:"fields"` // compared fields, per argument
+	Execable bool     `json:"execable"`
 }
 
 type SQLTable struct {
@@ -100,6 +100,8 @@ type sqlGen struct {
 	tables []*sqlTable
 
 	intEnum, strEnum, smallEnum *Decl
+	extEnum                     *Decl
+	extEnumVals                 []string
 	intEnumVals, strEnumVals    []string
 	payloads                    []*Decl
 	dateType                    *Decl
@@ -157,6 +159,10 @@ func NewSQLProg(idx int, r *rand.Rand) *Program {
 	}
 	if g.pr(0.5) {
 		g.sub = &Pkg{Name: "ext", Path: ModulePath + "/" + id + "/ext", Dir: id + "/ext"}
+		if g.pr(0.4) {
+			g.sub.Name = root.Name // an imported package called like the analysed one (another import path)
+			p.Feature("sql:sub-package-named-like-the-root-package")
+		}
 		p.Subs = append(p.Subs, g.sub)
 	}
 	g.makeSupport()
@@ -377,6 +383,34 @@ func (g *sqlGen) column(name string, tableIdx int) (cs colSpec, crudOK bool) {
 			c.SQLType, c.Domain = "timestamp (0) with time zone", "null:time"
 		}
 		c.Kind = "nullable:" + w
+	case 21: // enum declared in the sub-package (else a basic)
+		if g.sub == nil {
+			f.Type = Basic("int")
+			c.Kind, c.SQLType, c.Domain = "basic:int", basicSQL("int"), basicDomain("int")
+			break
+		}
+		if g.extEnum == nil {
+			under := g.pick("int", "string")
+			g.extEnum = &Decl{Name: "ExtTier", Pkg: g.sub, File: "types.go", Kind: DEnum, Under: Basic(under)}
+			vals := []string{"1", "4", "6"}
+			if under == "string" {
+				vals = []string{`"bronze"`, `"gold"`, `"silver"`}
+			}
+			blk := &ConstBlock{Grouped: true}
+			for i, v := range vals {
+				blk.Specs = append(blk.Specs, &Const{Names: []string{fmt.Sprintf("ExtTier%c", 'A'+i)}, Type: true, Value: v})
+			}
+			g.extEnum.Blocks = []*ConstBlock{blk}
+			g.sub.Decls = append(g.sub.Decls, g.extEnum)
+			g.extEnumVals = vals
+			if under == "string" {
+				g.extEnumVals = []string{"'bronze'", "'gold'", "'silver'"}
+			}
+		}
+		f.Type = Ref(g.extEnum)
+		c.Kind, c.SQLType, c.EnumVals = "enum:extern", basicSQL(g.extEnum.Under.Basic), g.extEnumVals
+		c.Check, c.Domain = "enum", "enum"
+		g.p.Feature("sql:enum-column-from-sub-package")
 	case 20: // user-defined NullXXX-style wrapper {Valid bool; X T} over a basic or over a local named time / date
 		var inner *TExpr
 		var innerGo, val, fromSrc, srcT string
